@@ -49,7 +49,7 @@ Update(ls, st) == [L \in 1..3 |->
 Apply(ls, cols, f, sel(_, _)) == [L \in 1..3 |->
     [ls[L] EXCEPT !.rows = [k \in DOMAIN ls[L].rows |->
         [ls[L].rows[k] EXCEPT !.v = [c \in DOMAIN ls[L].rows[k].v |->
-            IF c \in cols /\ sel(L, k) THEN F(f, ls[L].rows[k].v[c]) ELSE ls[L].rows[k].v[c]]]]]]
+            IF c \in cols /\ sel(L, k) THEN F(f, ls[L].rows[k].v[c], c) ELSE ls[L].rows[k].v[c]]]]]]
 
 Steps == Len(hist)
 Log(ev) == hist' = Append(hist, ev)
@@ -63,7 +63,7 @@ Fs == { [kind |-> "add", c |-> 1000], [kind |-> "mul", c |-> 2] }
 Write(cols, f, mask, ev) ==
     /\ live /\ Steps < Depth + 1 /\ N > 0
     /\ LET st2 == [i \in DOMAIN stacked |-> [c \in AllCols |->
-                     IF c \in cols /\ mask[i] /\ stacked[i][c] # NaN THEN F(f, stacked[i][c]) ELSE stacked[i][c]]]
+                     IF c \in cols /\ mask[i] /\ stacked[i][c] # NaN THEN F(f, stacked[i][c], c) ELSE stacked[i][c]]]
            sel(L, k) == mask[Base(lists, Inc, L) + k]
        IN /\ stacked' = st2
           /\ lists' = Update(lists, st2)
